@@ -71,6 +71,20 @@ func TestC05(t *testing.T) {
 			r.Violation("near", inputCase{in}, "%s", v)
 		}
 		r.End()
+		// the same with a comment between every two tokens: the verdict must not move
+		if cv, ok := commentedVariant(in); ok {
+			r.Begin("near", func() interface{} { return inputCase{cv} })
+			v2, info2 := c05Eval(r, cv)
+			r.Case(true, "near-commented:"+in)
+			r.Class("near:commented-variant")
+			if v2 == "" && info2.Accepted != info.Accepted {
+				r.HarnessErrorf("the reference judges %q and its commented variant differently", in)
+			}
+			if v2 != "" {
+				r.Violation("near", inputCase{cv}, "%s", v2)
+			}
+			r.End()
+		}
 	}
 
 	for _, kind := range gen.WideQueryKinds {
@@ -144,6 +158,10 @@ func TestC05(t *testing.T) {
 		lex := gen.QueryLexemes(doc, gen.Canon)
 		lex, op := mutateLexemes(rt, lex, c05MutAlphabet)
 		text := gen.JoinPlain(lex)
+		if rapid.IntRange(0, 2).Draw(rt, "ignoredtext") == 0 {
+			// comments, commas and line breaks between the lexemes: the verdict must not depend on them
+			text = gen.JoinRandom(rt, lex, true)
+		}
 		r.Begin("mutant", func() interface{} { return inputCase{text} })
 		defer r.End()
 		v, info := c05Eval(r, text)
